@@ -58,6 +58,10 @@ def configs(tier, seed):
                     out.append(dict(h="sum_over", op="sum_over", key=f"sum_over/x={xd or '-'}/S={S or '-'}/{st}/{lk}", xd=xd, lens=lens, S=S, style=st))
             for l in xd:
                 out.append(dict(h="cumsum", op="cumsum", key=f"cumsum/x={xd}/{l}/{lk}", xd=xd, lens=lens, l=l))
+                if lens[l] >= 2:
+                    # numeric items that are not listed in ascending order (vintages new to old, scenario numbers): item ORDER counts
+                    for tag, items in (("desc", [2020, 2010, 2000]), ("mixed", [2, 0.5, 1])):
+                        out.append(dict(h="cumsum", op="cumsum_n", key=f"cumsum/x={xd}/{l}/{lk}/items={tag}", xd=xd, lens=lens, l=l, items=items[: lens[l]]))
             for D in ordered_subsets(xd, min_size=1):
                 if int(np.prod([lens[l] for l in xd] or [1])) <= 12:
                     out.append(dict(h="shares", op="shares", key=f"shares/x={xd}/D={D}/{lk}", xd=xd, lens=lens, D=D))
@@ -99,6 +103,8 @@ def run(cfg, w):
     if cfg["h"] == "substring_names":
         return _substring_names(cfg, w)
     dims = {l: make_dim(l, n) for l, n in lens.items()}
+    if cfg.get("items"):
+        dims[cfg["l"]] = make_dim(cfg["l"], lens[cfg["l"]], items=list(cfg["items"]))
     xd = cfg["xd"]
     X = w.arr("x", tuple(lens[l] for l in xd))
     from svx.configs import relayout
